@@ -70,13 +70,13 @@ var rR16g = RuleRef{Name: "R16g", Doc: "Raft core guards (pinned mechanisms, not
 	}
 	obs := []ordOb{
 		{Pkg: raftPkg, Fn: "raftLog.commitTo", At: "store:committed", AllEdges: true, NeedAll: []string{"T|cmp:committed<p1"}, What: "the commit index is only ever raised"},
-		{Pkg: raftPkg, Fn: "raftLog.maybeCommit", At: "call:commitTo", AllEdges: true, NeedAll: []string{"T|cmp:p1>committed", "T|cmp:zeroTermOnErrCompacted()==p2"}, What: "an index is committed by counting only if its entry carries the given (current) term"},
-		{Pkg: raftPkg, Fn: "raftLog.maybeAppend", At: "call:append", AllEdges: true, NeedAll: []string{"T|call:matchTerm", "F|cmp:findConflict()==0", "F|cmp:findConflict()<=committed"}, What: "a conflicting suffix is replaced only above the commit index and only when the previous entry matches"},
+		{Pkg: raftPkg, Fn: "raftLog.maybeCommit", At: "call:commitTo", AllEdges: true, NeedAll: []string{"T|cmp:committed<p1", "T|cmp:p2==zeroTermOnErrCompacted()"}, What: "an index is committed by counting only if its entry carries the given (current) term"},
+		{Pkg: raftPkg, Fn: "raftLog.maybeAppend", At: "call:append", AllEdges: true, NeedAll: []string{"T|call:matchTerm", "F|cmp:0==findConflict()", "T|cmp:committed<findConflict()"}, What: "a conflicting suffix is replaced only above the commit index and only when the previous entry matches"},
 		{Pkg: raftPkg, Fn: "raftLog.append", At: "call:truncateAndAppend", AllEdges: true, NeedAll: []string{"F|cmp:?<committed"}, What: "append never truncates at or below the commit index"},
-		{Pkg: raftPkg, Fn: "raft.loadState", At: "store:committed", AllEdges: true, NeedAll: []string{"F|cmp:Commit<committed", "F|cmp:Commit>lastIndex()"}, What: "a loaded commit index lies within [committed, lastIndex]"},
-		{Pkg: raftPkg, Fn: "raft.Step", At: "store:Vote", AllEdges: true, NeedAll: []string{"T|call:isUpToDate"}, NeedAny: []string{"T|cmp:Vote==From", "T|cmp:Vote==0", "T|cmp:Term>Term"}, What: "a vote is recorded only for an up-to-date candidate and only if no conflicting vote was cast"},
-		{Pkg: raftPkg, Fn: "stepCandidate", At: "call:poll", AllEdges: true, NeedAll: []string{"T|cmp:Type==?"}, What: "a (pre-)candidate tallies only the response type of its current candidacy (compared with a state-dependent value, not with message-type constants)"},
-		{Pkg: raftPkg, Fn: "raft.hup", At: "call:campaign", AllEdges: true, NeedAll: []string{"C|slice", "C|numOfPendingConf", "F|cmp:state==2"}, What: "campaigning is refused while configuration changes are committed but unapplied"},
+		{Pkg: raftPkg, Fn: "raft.loadState", At: "store:committed", AllEdges: true, NeedAll: []string{"F|cmp:Commit<committed", "F|cmp:lastIndex()<Commit"}, What: "a loaded commit index lies within [committed, lastIndex]"},
+		{Pkg: raftPkg, Fn: "raft.Step", At: "store:Vote", AllEdges: true, NeedAll: []string{"T|call:isUpToDate"}, NeedAny: []string{"T|cmp:From==Vote", "T|cmp:0==Vote", "T|cmp:Term<Term"}, What: "a vote is recorded only for an up-to-date candidate and only if no conflicting vote was cast"},
+		{Pkg: raftPkg, Fn: "stepCandidate", At: "call:poll", AllEdges: true, NeedAll: []string{"T|cmp:?==Type"}, What: "a (pre-)candidate tallies only the response type of its current candidacy (compared with a state-dependent value, not with message-type constants)"},
+		{Pkg: raftPkg, Fn: "raft.hup", At: "call:campaign", AllEdges: true, NeedAll: []string{"C|slice", "C|numOfPendingConf", "F|cmp:2==state"}, What: "campaigning is refused while configuration changes are committed but unapplied"},
 	}
 	c.checkOrder("R16g", obs)
 	// hup scans the whole unapplied window: slice(applied+1, committed+1, noLimit)
